@@ -17,6 +17,7 @@ let () =
       out ti (kronecker m (int_ (List.nth a 0)) (int_ (List.nth a 1))));
   register "primes" (fun a -> pure (tl (List.map tnat (primes (nat_ (List.nth a 0))))));
   register "primes_iter" (fun a -> out tints (primes_take (nat_ (List.nth a 0)) (coqz_of_z (Z.of_int 2))));
+  register "primes_iter_default" (fun a -> out tints (primes_take (nat_ (List.nth a 0)) (coqz_of_z (Z.of_int 2))));
   (* is_prime n seed bytes : the model ignores the seed and reads the logged bytes *)
   register "is_prime" (fun a ->
       let r = rng_of_term (List.nth a 2) in
